@@ -142,7 +142,7 @@ def preemption_family(ctx, uni, mp, thorough):
              ("Ped37", "ed37", "Pi23", "i23", 1500 if T else 60), ("Ped37", "ed37", "Ped37", "ed37", 1500 if T else 40),
              ("PEd25519", "Ed25519", "P1024", "I1024", 60 if T else 6),
              ("PEd25519", "Ed25519", "PEd25519", "Ed25519", 60 if T else 6)]
-    out, npoints, nlines, ndistinct = [], 0, 0, 0
+    out, npoints, nlines, ndistinct, nmissed = [], 0, 0, 0, 0
     for n, (ps1, g1, ps2, g2, cap) in enumerate(pairs):
         q1, q2 = uni.group(g1).order(), uni.group(g2).order()
         pairing1, pairing2 = ("AB", "SS") if n % 2 == 0 else ("SS", "AB")
@@ -171,7 +171,11 @@ def preemption_family(ctx, uni, mp, thorough):
             if not preempt.run_preempted(s1, s2, k):
                 missed += 1
             out += [b1[0].json(), b2[0].json()]
-        if missed > len(ks) // 20:
+        # A point that is not reached (the library executes fewer lines than in the run that was measured: a cache
+        # filled by the first run, say) leaves a valid run - script 1, then script 2 - so it is only counted; a tracer
+        # that reaches almost nothing is a broken driver
+        nmissed += missed
+        if missed > len(ks) // 2:
             raise MachineryError("%d of %d preemption points not reached" % (missed, len(ks)))
         npoints += len(ks)
         # re-entrant entropy source: exchange 2 runs inside the first (and, with a forced redraw, the second) entropy
@@ -202,6 +206,7 @@ def preemption_family(ctx, uni, mp, thorough):
             if b2:
                 out.append(b2[0].json())
     ctx.cov["preemption_points_inside_calls"] = npoints
+    ctx.cov["preemption_points_not_reached"] = nmissed
     ctx.cov["preemption_library_lines_executed"] = nlines
     ctx.cov["preemption_distinct_source_lines"] = ndistinct
     return out
